@@ -947,3 +947,10 @@ def _m70():
     from bfg9000.builtins import link as bl
     _patch_source(bl, '_get_flags', 'variables[ldlibs] = [global_ldlibs] + lib_flags',
                   'variables[ldlibs] = [global_ldflags] + lib_flags')
+
+
+@mutant('autofill_overrides_empty')
+def _m71():
+    from bfg9000.builtins import pkg_config as pc
+    _patch_source(pc, 'finalize_pkg_config', 'if getattr(info, key) is None:',
+                  'if not getattr(info, key):')
